@@ -551,11 +551,18 @@ impl<R: RuleType> Error<R> {
         let offset = start - 1;
         let line_chars = self.inner.line.chars();
 
+        let mut padded = 0;
         for c in line_chars.take(offset) {
             match c {
                 '\t' => underline.push('\t'),
                 _ => underline.push(' '),
             }
+            padded += 1;
+        }
+        // the displayed line can be shorter than the column (a lone `\r` is counted
+        // as a column but stripped from the displayed line)
+        for _ in padded..offset {
+            underline.push(' ');
         }
 
         if let Some(end) = end {
